@@ -1,6 +1,7 @@
 package rules
 
 import (
+	"strconv"
 	"go/constant"
 	"go/token"
 	"go/types"
@@ -330,9 +331,44 @@ func c17Waits(c *Ctx, exec *ssa.Function) {
 		}
 		c.R.Check(hasDone, "R-cancel", construct+": ctx.Done arm", c.Pos(sel.Pos()), "the wait has an arm on the caller's ctx.Done()", "a wait of the retry executor has no arm on the caller's ctx.Done(): cancellation is not prompt")
 		if sel.Blocking && timer != nil {
+			// the duration may be computed by a helper: continue in the helper with its returned value, remembering
+			// which parameter carries the attempt number (and with what offset)
+			attemptOf := func(v ssa.Value) (bool, int64) {
+				b, k := affine(v)
+				_, isPhi := b.(*ssa.Phi)
+				return isPhi, k
+			}
+			inFn := exec
+			if hc, ok := timer.(*ssa.Call); ok {
+				if sc := ir.StaticCallee(hc); sc != nil && c.P.IsLib(sc) {
+					var ret *ssa.Return
+					nRet := 0
+					ir.EachInstr(sc, func(_ *ssa.BasicBlock, _ int, in ssa.Instruction) {
+						if r, ok := in.(*ssa.Return); ok {
+							ret = r
+							nRet++
+						}
+					})
+					if nRet == 1 && len(ir.Results(ret)) == 1 {
+						params := map[ssa.Value]int64{}
+						for i, a := range hc.Call.Args {
+							if isA, k := attemptOf(a); isA && i < len(sc.Params) {
+								params[sc.Params[i]] = k
+							}
+						}
+						attemptOf = func(v ssa.Value) (bool, int64) {
+							b, k := affine(v)
+							k0, ok := params[b]
+							return ok, k + k0
+						}
+						timer = ir.Results(ret)[0]
+						inFn = sc
+					}
+				}
+			}
 			ok, why := cappedBy(timer, "MaxBackoff")
 			c.R.Check(ok, "R-cap", construct+": wait duration", c.Pos(sel.Pos()), why, "the backoff handed to time.After is not capped by MaxBackoff: "+why)
-			ok2, why2 := exponentOK(exec, timer)
+			ok2, why2 := exponentOK(inFn, timer, attemptOf)
 			if why2 == "undecided" {
 				c.R.Add(reportUndecided("R-cap", construct+": exponent", c.Pos(sel.Pos()), "the backoff computation has a shape this rule does not recognise"))
 			} else {
@@ -385,7 +421,7 @@ func cappedBy(v ssa.Value, field string) (bool, string) {
 
 // exponentOK: the uncapped duration is Duration(float64(InitialBackoff) * m) where m is the product of
 // (attempt-1) factors BackoffFactor.
-func exponentOK(exec *ssa.Function, timer ssa.Value) (bool, string) {
+func exponentOK(exec *ssa.Function, timer ssa.Value, attemptOf func(ssa.Value) (bool, int64)) (bool, string) {
 	phi, ok := timer.(*ssa.Phi)
 	if !ok {
 		return false, "undecided"
@@ -431,8 +467,8 @@ func exponentOK(exec *ssa.Function, timer ssa.Value) (bool, string) {
 		if cv, ok := e.(*ssa.Convert); ok {
 			e = cv.X
 		}
-		b, k := affine(e)
-		if _, isPhi := b.(*ssa.Phi); isPhi && k == -1 {
+		isA, k := attemptOf(e)
+		if isA && k == -1 {
 			return true, "Factor^(attempt-1) via math.Pow"
 		}
 		return false, sprintf("the exponent is attempt%+d, not attempt-1", k)
@@ -461,8 +497,8 @@ func exponentOK(exec *ssa.Function, timer ssa.Value) (bool, string) {
 		if v.phi.Block() != mphi.Block() {
 			continue
 		}
-		b, k := affine(v.bound)
-		if _, isPhi := b.(*ssa.Phi); !isPhi {
+		isA, k := attemptOf(v.bound)
+		if !isA {
 			continue
 		}
 		iters := k - v.init
@@ -658,6 +694,9 @@ func c17Table(c *Ctx) {
 		return
 	}
 	tableFound := false
+	// string tables of the initialiser, grouped by backing array; the status table is the one holding numerals
+	tables := map[ssa.Value]map[string]bool{}
+	numeric := map[ssa.Value]bool{}
 	ir.EachInstr(initFn, func(_ *ssa.BasicBlock, _ int, in ssa.Instruction) {
 		st, ok := in.(*ssa.Store)
 		if !ok {
@@ -670,20 +709,33 @@ func c17Table(c *Ctx) {
 		if ir.TypeStr(st.Val.Type()) != "string" {
 			return
 		}
-		_ = ia
-		tableFound = true
+		if tables[ia.X] == nil {
+			tables[ia.X] = map[string]bool{}
+		}
 		if s, ok := ir.ConstStr(st.Val); ok {
-			got[s] = true
+			tables[ia.X][s] = true
+			if _, err := strconv.Atoi(s); err == nil {
+				numeric[ia.X] = true
+			}
 			return
 		}
 		if call, ok := st.Val.(*ssa.Call); ok && ir.CallName(call) == "strconv.Itoa" {
+			numeric[ia.X] = true
 			if n, ok := ir.ConstInt(call.Call.Args[0]); ok {
-				got[sprintf("%d", n)] = true
+				tables[ia.X][sprintf("%d", n)] = true
 				return
 			}
 		}
-		got["?"] = true
+		tables[ia.X]["?"] = true
 	})
+	for arr, t := range tables {
+		if numeric[arr] {
+			tableFound = true
+			for k := range t {
+				got[k] = true
+			}
+		}
+	}
 	if !tableFound {
 		c.R.Break("retryable status table initialiser not found")
 		return
